@@ -45,12 +45,12 @@ PROPS = {
         "runner": "checklib/run/tools_c35.py",
         "pre": ["build_tools"],
         "timeout": 1500,
-        "level_text": "Kernel-checked theorems about an executable Lean model of the JSON export's list construction (export_types / export_modules / export_globals after the ordering fix: sort, main-workspace filter, one entry per global name), with the hash-map listings modelled as arbitrary permutations: the output is the same for every iteration order (perm-invariance, given the distinctness of map keys / declaration ids); a type is exported iff it is a class/enum/alias with a main-workspace declaration, each once; each global name with a typed main-workspace declaration exactly once (de-duplication of the name-sorted list proved strictly increasing and lossless); modules iff main-workspace file with an export; nothing without a main-workspace declaration; pre-fix witness. Tie: the real emmylua_doc_cli on generated workspaces vs the model's name sequences on every run. Oracle: fresh-process exports byte-identical; declared classes/enums/aliases/globals/modules each once; nothing from library roots or std.",
+        "level_text": "Kernel-checked theorems about an executable Lean model of the JSON export's list construction (export_types / export_modules / export_globals after the ordering fix: sort, main-workspace filter, one entry per global name), with the hash-map listings modelled as arbitrary permutations: the output is the same for every iteration order (perm-invariance, given that the sort key is injective on the listed entries: for types the key (full name, first declaration) is proved injective whenever first declaration sites are distinct — also for same-named file-private types — and the harness checks that hypothesis on every generated workspace; for modules (name, file), for globals the declaration id); a type is exported iff it is a class/enum/alias with a main-workspace declaration, each once; each global name with a typed main-workspace declaration exactly once (de-duplication of the name-sorted list proved strictly increasing and lossless); modules iff main-workspace file with an export; nothing without a main-workspace declaration; witnesses for the unsorted and the name-only orderings. Tie: the real emmylua_doc_cli on generated workspaces vs the model's name sequences on every run. Oracle: fresh-process exports byte-identical; declared classes/enums/aliases/globals/modules each once; nothing from library roots or std.",
         "level_note": "Trusted: Lean kernel, python runner (workspace generator, expected-declaration bookkeeping), the correspondence run as the tie. Modelled: order, filtering and de-duplication of the three top-level lists. Not modelled: rendering of each entry (members, types, locations, config block) — covered only by the byte-identity oracle over fresh processes; a module is taken to be 'declared' when its file returns a value (export_type present).",
         "trusted_base": TOOLS_TB,
         "assumptions": [
             "hash-map iteration is some permutation of the stored entries",
-            "type full names are unique keys of the type map; a global declaration id (file, position) is unique; one module info per file",
+            "a declaration site (file, position) belongs to one type, every listed type has a declaration (checked per workspace by the runner); a global declaration id (file, position) is unique; one module info per file",
             "names compare as Rust str (byte-wise); generated names are ASCII",
         ],
         "technique": "Lean 4 theorems (List.Perm invariance of sort/filter/dedup) over an executable model + correspondence with the real binary + fresh-process byte-identity oracle",
